@@ -1083,7 +1083,8 @@ class Interp(object):
         if isinstance(v, (list, tuple)):
             return list(v)
         if isinstance(v, (set, frozenset)):
-            return sorted(v, key=repr)
+            from .values import HRat
+            return [x.r if isinstance(x, HRat) else x for x in sorted(v, key=repr)]
         if isinstance(v, dict):
             return list(v.keys())
         if isinstance(v, range):
@@ -1341,7 +1342,8 @@ def _hashable(v):
         f = v.as_fraction()
         if f is not None:
             return int(f) if f.denominator == 1 else f
-        return v.key()
+        from .values import HRat
+        return HRat(v)
     if isinstance(v, list):
         return tuple(_hashable(x) for x in v)
     return v
